@@ -11,6 +11,7 @@
 #define VERIF_C09_ALLOC_H
 #define _GNU_SOURCE
 #include <stdint.h>
+#include <inttypes.h>
 #include <stdlib.h>
 #include <string.h>
 #include <stdio.h>
